@@ -632,6 +632,13 @@ func (cx *Ctx) verifierEval(fn *ssa.Function, isCrypto func(ssa.CallInstruction)
 			continue
 		}
 		o := res[len(res)-1]
+		// a named result returned after deferred calls is a load of its cell: what the path stored there last
+		if _, isLd := o.(*ssa.UnOp); isLd {
+			pp := p
+			if rv := fx.retVal(&pp, len(res)-1); rv != nil {
+				o = rv
+			}
+		}
 		if phi, isPhi := o.(*ssa.Phi); isPhi {
 			pb := phi.Block()
 			for i, b := range p.Blocks {
